@@ -1,9 +1,194 @@
-(* Properties/C11.v — statements only. *)
+(* Properties/C11.v — arbitrary XML survives the generic element model.
+   Statements only; every proof is `exact <lemma>` of Proofs/Generic*.v.
+
+   Reading guide.  `roundtrip_spec o m p t` = parse the event stream `pump o m p t`
+   with the TreeParser, generate writer events, read them by the specification of the
+   event protocol; `roundtrip_written` reads them with the faithful model of
+   EventHandler.write instead.  `holder_roundtrip c o t` does the same through a typed
+   class with a wildcard field described by `c`.  `is_full o`: every text and tail was
+   fully visible when its `end` event was delivered.  Guards: Model/Generic.v. *)
 From Coq Require Import NArith ZArith List Bool.
-From XV Require Import Base.Str Spec.Infoset Model.Generic Proofs.GenericRefute.
+From XV Require Import Base.Str Spec.Infoset Model.Generic
+  Proofs.GenericParse Proofs.GenericWrite Proofs.GenericRoundtrip Proofs.GenericNs Proofs.GenericHolder
+  Proofs.GenericRefute.
 Import ListNotations.
 
+(* ---- the generic tree -------------------------------------------------------------- *)
+Theorem C11_tree_parser_builds :
+  forall o m p t, tree_parse (pump o m p t) = Some (any_of o m p t).
+Proof. exact tree_parse_pump. Qed.
+Print Assumptions C11_tree_parser_builds.
+
+Theorem C11_any_roundtrip :
+  forall o m p t,
+    is_full o -> g_wf m t = true -> guard_any m t = true ->
+    roundtrip_spec o m p t = Some (norm_ws (canon m t)).
+Proof. exact any_roundtrip. Qed.
+Print Assumptions C11_any_roundtrip.
+
+Theorem C11_any_roundtrip_written :
+  forall o m p t,
+    is_full o -> g_wf m t = true -> guard_any m t = true -> guard_write m t = true ->
+    roundtrip_written o m p t = Some (norm_ws (canon m t)).
+Proof. exact any_roundtrip_written. Qed.
+Print Assumptions C11_any_roundtrip_written.
+
+Theorem C11_writer_agrees_with_spec :
+  forall o m p t,
+    g_wf m t = true -> guard_any m t = true -> guard_write m t = true ->
+    roundtrip_written o m p t = roundtrip_spec o m p t.
+Proof. exact writer_agrees_with_spec. Qed.
+Print Assumptions C11_writer_agrees_with_spec.
+
+(* ---- typed classes holding a wildcard ----------------------------------------------- *)
+Theorem C11_holder_captures :
+  forall c o t,
+    is_full o -> holder_pre c t = true ->
+    wild_parse c (pump o [] [] t)
+    = Ok (mkRobj (if c_amap c then parse_any_attributes (i_nsd t ++ []) (i_atts t) else [])
+                 (holder_value c (normalize_content (cut None (i_text t)))
+                               (any_kids o (i_nsd t ++ []) [] 0 (i_kids t)))).
+Proof. exact holder_captures. Qed.
+Print Assumptions C11_holder_captures.
+
+Theorem C11_tree_parser_eq_wildcard_capture :
+  forall c o rq rd rx k rl,
+    is_full o -> c_kind c = KSingle -> all_ws rx = true ->
+    holder_pre c (INode rq [] rd rx [k] rl) = true ->
+    exists v, tree_parse (pump o (rd ++ []) [O] k) = Some v /\
+              wild_parse c (pump o [] [] (INode rq [] rd rx [k] rl)) = Ok (mkRobj [] (WOne v)).
+Proof. exact tree_parser_eq_wildcard_capture. Qed.
+Print Assumptions C11_tree_parser_eq_wildcard_capture.
+
+Theorem C11_wildcard_list_captures_tree_parser :
+  forall c o t,
+    is_full o -> c_kind c <> KSingle -> holder_pre c t = true ->
+    exists vs,
+      map Some vs = mapi (fun i k => tree_parse (pump o (i_nsd t ++ []) [i] k)) 0 (i_kids t) /\
+      exists pre ra, wild_parse c (pump o [] [] t) = Ok (mkRobj ra (WMany (pre ++ vs))).
+Proof. exact wildcard_list_captures_tree_parser. Qed.
+Print Assumptions C11_wildcard_list_captures_tree_parser.
+
+(* single value, list, mixed list, compound field with a wildcard choice; with or
+   without an Attributes map; any namespace constraint (through child_ok) *)
+Theorem C11_holder_roundtrip :
+  forall c o t,
+    is_full o -> holder_pre c t = true ->
+    holder_roundtrip c o t = Some (norm_ws_root (canon [] t)).
+Proof. exact holder_roundtrip_ok. Qed.
+Print Assumptions C11_holder_roundtrip.
+
+(* ---- namespace constraints ------------------------------------------------------------ *)
+Theorem C11_match_namespace_spec :
+  forall target ks uri local,
+    ks <> [] ->
+    wf_ouri target = true -> wf_ouri uri = true -> wf_local local = true ->
+    forallb (kw_ok target uri) ks = true ->
+    match_namespace (map (resolve_kw target) ks) (qname_of uri local) = xsd_allows target ks uri.
+Proof. exact match_namespace_spec. Qed.
+Print Assumptions C11_match_namespace_spec.
+
+Theorem C11_match_namespace_other_refuted :
+  exists target ks uri local,
+    wf_ouri target = true /\ wf_ouri uri = true /\ wf_local local = true /\
+    match_namespace (map (resolve_kw target) ks) (qname_of uri local) <> xsd_allows target ks uri.
+Proof. exact match_namespace_other_refuted. Qed.
+Print Assumptions C11_match_namespace_other_refuted.
+
+Theorem C11_match_namespace_target_refuted :
+  exists target ks uri local,
+    wf_ouri target = true /\ wf_ouri uri = true /\ wf_local local = true /\
+    match_namespace (map (resolve_kw target) ks) (qname_of uri local) <> xsd_allows target ks uri.
+Proof. exact match_namespace_target_refuted. Qed.
+Print Assumptions C11_match_namespace_target_refuted.
+
+(* ---- where the full statement fails: one witness per guard clause ------------------------ *)
 Theorem C11_tail_cut_refuted :
-  exists o t, guard_any [] t = true /\ roundtrip o t <> Some (norm_ws (canon [] t)).
+  exists o t, g_wf [] t && guard_any [] t && guard_write [] t = true /\ roundtrip_spec o [] [] t <> expect t.
 Proof. exact tail_cut_refuted. Qed.
 Print Assumptions C11_tail_cut_refuted.
+
+Theorem C11_text_cut_refuted :
+  exists o t, g_wf [] t && guard_any [] t && guard_write [] t = true /\ roundtrip_spec o [] [] t <> expect t.
+Proof. exact text_cut_refuted. Qed.
+Print Assumptions C11_text_cut_refuted.
+
+Theorem C11_xsi_nil_dropped_refuted :
+  exists t, g_wf [] t && guard_any [] t && g_dtclark [] t = true /\
+            roundtrip_spec full_oracle [] [] t = expect t /\ roundtrip_written full_oracle [] [] t <> expect t.
+Proof. exact xsi_nil_dropped_refuted. Qed.
+Print Assumptions C11_xsi_nil_dropped_refuted.
+
+Theorem C11_attr_value_rewritten_refuted :
+  exists t, g_wf [] t && g_xsitype [] t && g_space [] t && guard_write [] t = true /\
+            roundtrip_spec full_oracle [] [] t <> expect t.
+Proof. exact attr_value_rewritten_refuted. Qed.
+Print Assumptions C11_attr_value_rewritten_refuted.
+
+Theorem C11_attr_datatype_clark_refuted :
+  exists t, g_wf [] t && guard_any [] t && g_nil [] t = true /\
+            roundtrip_spec full_oracle [] [] t = expect t /\ roundtrip_written full_oracle [] [] t <> expect t.
+Proof. exact attr_datatype_clark_refuted. Qed.
+Print Assumptions C11_attr_datatype_clark_refuted.
+
+Theorem C11_xsi_type_default_ns_refuted :
+  exists t, g_wf [] t && g_rewrite [] t && g_space [] t && guard_write [] t = true /\
+            roundtrip_spec full_oracle [] [] t <> expect t.
+Proof. exact xsi_type_default_ns_refuted. Qed.
+Print Assumptions C11_xsi_type_default_ns_refuted.
+
+Theorem C11_python_space_refuted :
+  exists t, g_wf [] t && g_rewrite [] t && g_xsitype [] t && guard_write [] t = true /\
+            roundtrip_spec full_oracle [] [] t <> expect t.
+Proof. exact python_space_refuted. Qed.
+Print Assumptions C11_python_space_refuted.
+
+Theorem C11_holder_xsi_primitive_refuted :
+  exists t, g_wf [] t && guard_any [] t && guard_write [] t = true /\ g_first_level [] t = false /\
+            roundtrip_spec full_oracle [] [] t = expect t /\
+            holder_roundtrip cfg_single full_oracle t <> expect_root t /\
+            holder_roundtrip cfg_list full_oracle t <> expect_root t /\
+            holder_roundtrip cfg_mixed full_oracle t <> expect_root t.
+Proof. exact holder_xsi_primitive_refuted. Qed.
+Print Assumptions C11_holder_xsi_primitive_refuted.
+
+Theorem C11_holder_xsi_primitive_choice_refuted :
+  exists t, g_wf [] t && guard_any [] t && guard_write [] t = true /\
+            holder_roundtrip cfg_choice full_oracle t <> expect_root t.
+Proof. exact holder_xsi_primitive_choice_refuted. Qed.
+Print Assumptions C11_holder_xsi_primitive_choice_refuted.
+
+Theorem C11_holder_xsi_primitive_child_refuted :
+  exists t, g_wf [] t && guard_any [] t && guard_write [] t = true /\
+            roundtrip_spec full_oracle [] [] t = expect t /\
+            wild_parse cfg_list (pump full_oracle [] [] t) = Err EContext.
+Proof. exact holder_xsi_primitive_child_refuted. Qed.
+Print Assumptions C11_holder_xsi_primitive_child_refuted.
+
+Theorem C11_tree_parser_ne_wildcard_refuted :
+  exists rd k v w,
+    tree_parse (pump full_oracle (rd ++ []) [O] k) = Some v /\
+    wild_parse cfg_single (pump full_oracle [] [] (INode [82%N] [] rd [] [k] [])) = Ok (mkRobj [] (WOne w)) /\
+    v <> w.
+Proof. exact tree_parser_ne_wildcard_refuted. Qed.
+Print Assumptions C11_tree_parser_ne_wildcard_refuted.
+
+(* ---- the guards are not vacuous ------------------------------------------------------------- *)
+Example C11_guards_nonvacuous :
+  g_wf [] w_ok && guard_any [] w_ok && guard_write [] w_ok = true /\
+  roundtrip_written full_oracle [] [] w_ok = expect w_ok.
+Proof. exact guards_nonvacuous. Qed.
+Print Assumptions C11_guards_nonvacuous.
+
+Example C11_holder_pre_nonvacuous :
+  holder_pre cfg_single w_ok_holder = true /\ holder_pre cfg_list w_ok_holder = true /\
+  holder_pre cfg_mixed w_ok_holder = true /\ holder_pre cfg_choice w_ok_choice = true /\
+  holder_pre cfg_list_amap w_ok_amap = true.
+Proof. exact holder_pre_nonvacuous. Qed.
+Print Assumptions C11_holder_pre_nonvacuous.
+
+Example C11_match_namespace_guard_nonvacuous :
+  forallb (kw_ok (Some [117;114;110;58;97]%N) (Some [117;114;110;58;98]%N))
+          [KOther; KLocal; KTarget; KUri [117;114;110;58;99]%N] = true.
+Proof. exact match_namespace_guard_nonvacuous. Qed.
+Print Assumptions C11_match_namespace_guard_nonvacuous.
